@@ -663,10 +663,13 @@ impl<'a> Gen<'a> {
         let mark = self.scope.len();
         self.scope.push(VarInfo { name: it.clone(), shape: shape.clone() });
         self.iters.push(it.clone());
+        // an enclosing fold over the same stream would re-run the seed append in each of its
+        // iterations: unbounded recursion up to the stream size limit, at a cost cubic in it
+        let nested_on_same = self.folding.contains(&s);
         self.folding.push(s.clone());
         let mut body = self.gen_ins(Ctx { guard: false, ..ctx });
         self.folding.pop();
-        if self.cfg.rec_streams && shape == Shape::Str && self.rng.chance(1, 3) {
+        if self.cfg.rec_streams && !nested_on_same && shape == Shape::Str && self.rng.chance(1, 3) {
             // bounded recursion: while visiting the unique seed value, append one more literal to
             // the iterated stream; the fold must then also visit the appended value
             let n = self.id();
